@@ -42,6 +42,10 @@ func main() {
 		famC11(os.Args[2])
 	case "c06p":
 		famC06p(os.Args[2])
+	case "c12pk":
+		famC12pk(os.Args[2])
+	case "c12pk-node":
+		c12pkNode(os.Args[2])
 	default:
 		fmt.Println("unknown family", os.Args[1])
 		os.Exit(2)
